@@ -62,7 +62,10 @@ func reuseJobOf(q string, states []*D) h.Job {
 // runReuse evaluates, for each (query, states), one parsed operation over a live document and compares
 // every outcome with the outcome of a fresh parse on a fresh copy of that state (computed through
 // the ordinary eval cases, hence also compared with the model).
-func (c *Ctx) runReuse(tag string, queries []string, states [][]*D) {
+func (c *Ctx) runReuse(tag string, queries []string, states [][]*D) { c.runReuseIn(tag, queries, states, false) }
+
+// runReuseIn: fresh = every job in a process of its own (nothing has been evaluated there before)
+func (c *Ctx) runReuseIn(tag string, queries []string, states [][]*D, fresh bool) {
 	jobs := make([]h.Job, len(queries))
 	type ref struct {
 		fresh []*EvalCase
@@ -74,7 +77,12 @@ func (c *Ctx) runReuse(tag string, queries []string, states [][]*D) {
 			refs[i].fresh = append(refs[i].fresh, c.AddEval(q, st, tag+":fresh", false, true))
 		}
 	}
-	replies := h.RunJobs(jobs, 12)
+	var replies []string
+	if fresh {
+		replies = h.RunJobsFresh(jobs, 12)
+	} else {
+		replies = h.RunJobs(jobs, 12)
+	}
 	c.RunEvalCases()
 	for i, q := range queries {
 		outs := strings.Split(replies[i], "|")
